@@ -129,7 +129,7 @@ func runDaemonFault(cause string, load bool) string {
 		out = "/dev/full"
 	}
 	var outR *os.File
-	if cause == "writeerr-audit" {
+	if cause == "writeerr-audit" || cause == "writeerr-audit-burst" {
 		// the events output is a FIFO whose reader goes away later: writes then fail with EPIPE
 		odir, err := os.MkdirTemp("", "verif-out")
 		if err != nil {
@@ -165,7 +165,7 @@ func runDaemonFault(cause string, load bool) string {
 		return "X:startfail"
 	}
 	defer d.stop()
-	if cause == "writeerr-audit" {
+	if cause == "writeerr-audit" || cause == "writeerr-audit-burst" {
 		// a correlated session, so that the audit side writes an event for every record of the load
 		d.sshdW.Write([]byte("9 Accepted password for bob from 1.2.3.4 port 22 ssh2\n"))
 		d.auditW.Write([]byte("type=LOGIN msg=audit(1600000000.000:1): pid=9 uid=0 old-auid=4294967295 auid=1000 tty=(none) old-ses=4294967295 ses=77 res=1\n"))
@@ -231,6 +231,19 @@ func runDaemonFault(cause string, load bool) string {
 		d.auditW.Write([]byte("this is not an audit record\n"))
 	case "writeerr":
 		d.sshdW.Write([]byte("77 Invalid user mallory from 10.9.8.7 port 4711\n"))
+	case "writeerr-audit-burst":
+		// a burst of the session's events held back behind an incomplete kernel event (no PROCTITLE / EOE):
+		// they are released together when it times out (2 s) — with the output gone by then, every one
+		// of them fails to be written, in one run of the reassembler's callback
+		d.auditW.Write([]byte("type=SYSCALL msg=audit(1600000001.000:2): arch=c000003e syscall=59 success=yes exit=0 a0=1 a1=2 a2=3 a3=4 items=1 ppid=1 pid=9 auid=1000 uid=1000 gid=1000 euid=1000 suid=1000 fsuid=1000 egid=1000 sgid=1000 fsgid=1000 tty=pts0 ses=77 comm=\"true\" exe=\"/usr/bin/true\" key=(null)\n"))
+		var b strings.Builder
+		for i := 0; i < 40; i++ {
+			b.WriteString(auditCmdLine(100 + i))
+		}
+		d.auditW.Write([]byte(b.String()))
+		time.Sleep(200 * time.Millisecond)
+		outR.Close()
+		t0 = time.Now()
 	case "writeerr-audit":
 		outR.Close() // from now on every event write fails
 		if !load {
